@@ -237,23 +237,51 @@ def check_no_panic(ctx, rep, tier):
                 # private helpers reached only through advance_state are already part of its table
                 extra |= public_roots(ctx, p, allowed={path}, callers=cmap)
         extra = sorted(p for p in extra if p != path and not prog.fns[p].get('derived'))
+        # other writers (a `reset()`, a statistics reset, ...) are further transitions of the same automaton: close the
+        # reachable set under them, starting each from the states that are actually reachable
+        import itertools
+        from .extract import flat_typed
+        writer_leaves = []
         for p in extra:
             en = Engine(prog)
-            for lf in en.run(p):
-                if lf.kind == 'return' and lf.cells.get(('H', 'self')) is not None:
-                    from .extract import flat_scalars
-                    import itertools
-                    fl = flat_scalars(lf.cells[('H', 'self')])
-                    doms = []
-                    for x in fl:
-                        if x[0] == 'c':
-                            doms.append([x[1]])
-                        elif x[0] == 'a' and lf.doms.get(x[1]) is not None:
-                            doms.append(sorted(lf.doms[x[1]]))
-                        else:
-                            raise Undecided('extra writer %s leaves a state that cannot be enumerated' % p)
-                    for s in itertools.product(*doms):
-                        reach |= t.reachable(s)
+            lvs_ = en.run(p, arg_names=['self'])
+            init_ = flat_typed(prog, t.self_ty, en.initial_store[('H', 'self')])
+            names_all = [x[1] if x[0] == 'a' else None for x in init_]
+            writer_leaves.append((p, lvs_, names_all))
+        grew = True
+        rounds_ = 0
+        while grew and rounds_ < 50:
+            grew = False
+            rounds_ += 1
+            for p, lvs_, names_all in writer_leaves:
+                kept_names = [names_all[i] for i in t.keep]
+                for lf in lvs_:
+                    if lf.kind != 'return' or lf.cells.get(('H', 'self')) is None:
+                        continue
+                    post_ = flat_typed(prog, t.self_ty, lf.cells[('H', 'self')])
+                    for s_ in list(reach):
+                        if not all(nm is None or lf.doms.get(nm) is None or v_ in lf.doms[nm] for nm, v_ in zip(kept_names, s_)):
+                            continue
+                        asg = {nm: v_ for nm, v_ in zip(kept_names, s_) if nm is not None}
+                        outs = [[]]
+                        ok_ = True
+                        for i in t.keep:
+                            x = post_[i]
+                            if x[0] == 'c':
+                                vals_ = [x[1]]
+                            else:
+                                free = [n_ for n_ in value_atoms(x) if n_ not in asg]
+                                if any(lf.doms.get(n_) is None for n_ in free):
+                                    raise Undecided('writer %s installs a state that cannot be enumerated' % p)
+                                vals_ = sorted({ev(x, dict(asg, **dict(zip(free, combo)))) for combo in itertools.product(*[sorted(lf.doms[n_]) for n_ in free])})
+                            outs = [o_ + [v2] for o_ in outs for v2 in vals_]
+                            if len(outs) > 4096:
+                                raise Undecided('writer %s can install too many states' % p)
+                        for o_ in outs:
+                            ns = tuple(o_)
+                            if ns not in reach:
+                                reach |= t.reachable(ns)
+                                grew = True
         # functions that BUILD a decoder from their arguments (`From<OtherSet>`, a `with_state(..)` constructor, ...) seed the
         # reachable set with every state they can produce (new() and the argument-less ones are seeds already)
         short = self_str.split('::')[-1]
@@ -270,9 +298,9 @@ def check_no_panic(ctx, rep, tier):
                 for lf in en.run(g['path']):
                     if lf.kind != 'return' or lf.ret is None:
                         continue
-                    from .extract import flat_scalars
+                    from .extract import flat_typed
                     import itertools
-                    fl = flat_scalars(lf.ret)
+                    fl = flat_typed(prog, t.self_ty, lf.ret)
                     doms = []
                     for x in fl:
                         if x[0] == 'c':
@@ -380,7 +408,8 @@ def check_no_panic(ctx, rep, tier):
             run_simple(ctx, rep, f['path'], f['path'])
             covered_fns.add(f['path'])
         except Undecided as u:
-            if f['name'] not in KNOWN_API and not f.get('impl_trait'):
+            prop_trait = (f.get('impl_trait') or '').split('::')[-1] in ('KeyboardLayout', 'ScancodeSet', 'Default', 'Drop')
+            if f['name'] not in KNOWN_API and not prop_trait:
                 # an addition to the public API is not one of the operations the statement lists; when it cannot be
                 # analysed it is noted, not judged (it is still inlined wherever a listed operation calls it)
                 rep.note('new public function %s could not be analysed (API extension, not judged): %s' % (f['path'], str(u)[:160]))
